@@ -5,9 +5,14 @@ access in /repo (used when a fix: commit deliberately changes the inventory)."""
 import re, os
 base = os.path.join(os.path.dirname(os.path.dirname(os.path.abspath(__file__))), "coq")
 s = open(os.path.join(base, "Gen", "Inventory.v")).read()
-rows = re.findall(r'^  \((".*")\);?$', s, re.M)
+full, keys = s.split("Definition inventory_keys")
+rows = re.findall(r'^  \((".*")\);?$', full, re.M)
+krows = re.findall(r'^  \((".*")\);?$', keys, re.M)
 head = open(os.path.join(base, "Spec", "InventoryExpected.v")).read().split("Definition expected_inventory")[0]
 out = head + "Definition expected_inventory : list (string * string * string * string) := [\n"
-out += ";\n".join("  (" + r + ")" for r in rows) + "\n].\n"
+out += ";\n".join("  (" + r + ")" for r in rows) + "\n].\n\n"
+out += "(* the same sites as normalised keys (kind, package, what the site is): Props/C01.v proves that the\n   regenerated keys are a sub-multiset of these - sites may move, merge or disappear, none may appear *)\n"
+out += "Definition expected_keys : list (string * string * string) := [\n"
+out += ";\n".join("  (" + r + ")" for r in krows) + "\n].\n"
 open(os.path.join(base, "Spec", "InventoryExpected.v"), "w").write(out)
 print(len(rows), "rows pinned")
